@@ -122,6 +122,9 @@ def X_incarnation_lifecycle(ctx):
             continue
         if not st or st[0].d['args'][1] != ('arg', 3):
             bad.append('set_tx(tx) missing')
+        fz = [e for e in p.events if e.kind == 'call' and e.d['callee'].endswith('::finalize')]
+        if not fz or idx_of(p, fz[0]) < idx_of(p, run[0]):
+            bad.append('finalize() is not called after the run on every path (a failed run must also be finalized: revm keeps loaded accounts and slots cached in the journal until finalize, and a cached read never reaches IncarnationDb)')
         dec = [a for a in p.events if a.kind == 'atom' and a.d['term'][0] == 'discr' and a.d['outcome'] in ('Ok', 'Err') and has_call(a.d['term'][1], 'Result::map')]
         if dec and dec[-1].d['outcome'] == 'Ok':
             rows.add('ok')
